@@ -198,6 +198,10 @@ def _translate_metadata_to_ds9(region, shape):
     if fill is not None:
         meta['fill'] = int(fill)
 
+    include = meta.pop('include', None)
+    if include is not None:
+        meta['include'] = int(bool(include))  # DS9 accepts only 0 or 1
+
     if 'text' in meta:
         meta['text'] = f'{{{meta["text"]}}}'
 
